@@ -24,6 +24,8 @@ var c08Corpus = []string{
 	`r"{{a}}"`, `r'x'`, `"{{a}}"`, `x := r"a\n"`,
 	"/* a */ /* b */ x", "if a { /* c */ b }", "a # c", "a /* c */", "/* a\nb */ x", "x\n\n\ny",
 	"7 * ((3 % 2) / 2)", "7 * ((3 // 2) * 2)", "7 * ((3 * 2) / 2)", "a * ((a % a) / a)", "+(not t * ((-1) / (not l)))",
+	"x := [return\n]", "x := f(return\n)", "a[((return\n))]", "x := mutex m {\na\n}\nb", "p := \"C:\\\\temp\\\\new\"", "re := \"\\\\d+\\t\\\\w\"",
+	"x := r'a\r\nb'\r\ny := 1\r\n", "7 * ((a + b) / c)", "-((a + b) * (c + d))", "[1,2,3,4,5,6,7,8,9,10,11,12]",
 	"(return a) + b", "a + (return b) + c", "not (return b) and c", "func g() {\nx := (return 1) + 2\n}\ng()", "return a + b",
 	"-suppresses a", "not priority 1", "a + kindmatch b", "x := \"\u0378\"", "\"\ufffe\"", "\"\U000e0001\"",
 	"x := a([1,2,3,4,5])[0]", "x := (let a) + 1", "sink s kindmatch [\"a\"], priority (1 + 2) { a }", "try { a }\n\nexcept { b }",
@@ -42,7 +44,7 @@ func c08Gen(g *Gen) {
 		seen[src] = true
 		nEmit++
 		ff := nEmit%8 == 0
-		for _, k := range []string{"corpus", "string", "stmt.single", "container", "bytes", "runes"} {
+		for _, k := range []string{"corpus", "string", "stmt.single", "container", "bytes", "runes", "control", "crlf", "wide", "return.closer"} {
 			if strings.HasPrefix(kind, k) {
 				ff = true
 			}
@@ -59,6 +61,7 @@ func c08Gen(g *Gen) {
 	for _, s := range c08Corpus {
 		emit("corpus", s, true)
 	}
+	g.Emit("TABLES") // not a case: the driver reports whether Parser.lean's table agrees with the regenerated one
 	// the format tool on a directory tree: FormatFiles / Format, plain directory / symbolic link, other extension, -help
 	for v := 0; v < 8; v++ {
 		g.Count("format-tree")
@@ -270,6 +273,82 @@ func c08Gen(g *Gen) {
 		}
 	}
 	rrec("", 0)
+
+	// ---- control characters, tab, CR and backslash + letter in string values (escaped and raw), CRLF sources
+	catoms := []string{"\t", `\t`, `\\t`, `\r`, "\r", `\a`, `\b`, `\f`, `\v`, `\x00`, `\x7f`, `\x1b`, "\x7f", "\x01", `\\d`, `\\w`, `\\n`, `\\temp`, "a", `\"`}
+	cmax := 2
+	if g.Thorough() {
+		cmax = 3
+	}
+	var crec func(prefix string, n int)
+	crec = func(prefix string, n int) {
+		for _, f := range [][2]string{{`"`, `"`}, {`'`, `'`}, {`r"`, `"`}} {
+			emit("control", f[0]+prefix+f[1], true)
+		}
+		emit("control.context", "x := [\""+prefix+"\", 1]\r\nx.rec(r'"+prefix+"')\r\n", true)
+		if n == cmax {
+			return
+		}
+		for _, a := range catoms {
+			crec(prefix+a, n+1)
+		}
+	}
+	crec("", 0)
+	for _, src := range []string{"x := r'a\r\nb'\r\ny := 1\r\n", "if a {\r\n    b\r\n}\r\n", "x := r\"l1\r\nl2\r\n\"\r\n", "a # c\r\nb\r\n",
+		"/* c\r\n d */\r\na\r\n", "x := [1,\r\n2]\r\n", "a\r\n\r\nb"} {
+		emit("crlf", src, true)
+	}
+
+	// ---- nodes with 10 and more children: lists, maps, calls, parameters, sink attributes, blocks
+	for _, n := range []int{10, 12, 23} {
+		var nums, kvs, ps, stm, strs []string
+		for i := 1; i <= n; i++ {
+			nums = append(nums, fmt.Sprint(i))
+			kvs = append(kvs, fmt.Sprintf("\"k%d\" : %d", i, i))
+			ps = append(ps, fmt.Sprintf("p%d", i))
+			stm = append(stm, fmt.Sprintf("x.rec(%d)", i))
+			strs = append(strs, fmt.Sprintf("\"s%d\"", i))
+		}
+		emit("wide", "x := ["+strings.Join(nums, ", ")+"]\nx", true)
+		emit("wide", "x := {"+strings.Join(kvs, ", ")+"}\nx", true)
+		emit("wide", "x.rec("+strings.Join(nums, ", ")+")", true)
+		emit("wide", "func g("+strings.Join(ps, ", ")+") {\nreturn p1 + p"+fmt.Sprint(n)+"\n}\ng("+strings.Join(nums, ", ")+")", true)
+		emit("wide", strings.Join(stm, "\n"), true)
+		emit("wide", "if t {\n"+strings.Join(stm, "\n")+"\n}", true)
+		emit("wide", "sink s kindmatch ["+strings.Join(strs, ", ")+"], suppresses ["+strings.Join(strs, ", ")+"] {\n"+strings.Join(stm, "\n")+"\n}", true)
+		emit("wide", "try {\na\n} except "+strings.Join(strs, ", ")+" as e {\nb\n}", true)
+		emit("wide", "a."+strings.Join(ps, ".")+"("+strings.Join(nums, ", ")+")["+fmt.Sprint(n)+"]", true)
+		emit("wide", "["+strings.Join(strs, ", ")+", ["+strings.Join(nums, ", ")+"], {"+strings.Join(kvs, ", ")+"}]", true)
+	}
+
+	// ---- a prefix operator / a further operator over a product of two bracketed operands (quick tier), and operators
+	// that are not multiplicative on the spine of a product's right operand
+	for _, o2 := range c08Bin {
+		for _, p := range c08Pre {
+			emit("nest3.paren-pair", fmt.Sprintf("%s((a + b) %s (c - a))", p, o2), true)
+			emit("nest3.paren-pair", fmt.Sprintf("%s((t or f) %s (f and t))", p, o2), true)
+		}
+		emit("nest3.paren-pair", fmt.Sprintf("((a + b) %s (c - a)) * b", o2), true)
+		emit("nest3.paren-pair", fmt.Sprintf("b - ((a * b) %s (c / a))", o2), true)
+		for _, o3 := range []string{"*", "/"} {
+			emit("mulchain.spine", fmt.Sprintf("7 * ((a %s b) %s c)", o2, o3), true)
+			emit("mulchain.spine", fmt.Sprintf("7 * (((a %s b) %s c) %s 2)", o2, o3, o3), true)
+			emit("mulchain.spine", fmt.Sprintf("7 * ((-a) %s (b %s c))", o3, o2), true)
+		}
+	}
+
+	// ---- a bare return in front of a closing token; statements used as operands
+	for _, f := range []string{"x := [return\n]", "x := [1, return\n]", "x := f(return\n)", "x := f(1, return\n)", "a[return\n]", "a[((return\n))]",
+		"x := (return\n)", "x := {\"a\" : return\n}", "if t {\nx := [return\n]\n}", "x := [return\n, 1]", "x.rec([return\n])\nb"} {
+		emit("return.closer", f, true)
+	}
+	blocks := []string{"mutex m {\na\n}", "sink s kindmatch [\"a\"] {\na\n}", "if t {\na\n}", "for q in [1] {\na\n}", "try {\na\n} finally {\nb\n}",
+		"func () {\nreturn 1\n}", "import \"x\" as y", "func g() {\n}"}
+	for _, b := range blocks {
+		for _, f := range []string{"x := %s\nb", "x := %s", "return %s\nb", "x := 1 + %s\nb", "x := [%s]\nb", "x.rec(%s)\nb", "x := not %s\nb", "x := %s\n\nb"} {
+			emit("stmt.operand", fmt.Sprintf(f, b), true)
+		}
+	}
 
 	// ---- statement kinds nested pairwise
 	outer := []string{
